@@ -251,6 +251,8 @@ def rule_who(ctx, rep):
 
 META["explanation"] += " " + 'Also (round 11): q->head / q->tail are written by cmpxchg everywhere in the unit (plain stores only in the initialisation).'
 
+META["explanation"] += " " + 'Also (rounds 11-12): head cmpxchg decides who returns / retires, one snapshot of q->head per attempt, make_dummy / enqueue_dummy / init shapes.'
+
 RULES = [
     ("C12.who", rule_who),
     ("C12.skeleton", rule_skeleton),
